@@ -423,6 +423,17 @@ class Trace:
         if saved is not None:
             self.snaps[t] = saved
 
+    def task_state(self):
+        """what a caller can read off the task objects the cluster has been given so far"""
+        seen, out = set(), []
+        for a in self.allocs:
+            t = a.get('obj')
+            if t is None or id(t) in seen:
+                continue
+            seen.add(id(t))
+            out.append((str(t.id), t.ast, t.aft, bool(t.delay_flag), str(t.task_status)))
+        return sorted(out)
+
     def end_of_step(self, t):
         """called before the first event of a later timestep: state here == beginning of step t+1"""
         if self.cluster_only:
@@ -430,6 +441,8 @@ class Trace:
         sim = self.sim
         snap = self.snapshot()
         self.snaps[t + 1] = snap
+        if getattr(self, 'track_task_state', False):
+            self.boundary_task_state = (t + 1, self.task_state())
         truth = {
             # "no task is running and no machine is busy": neither an allocation the cluster knows of nor a task body
             # that is still executing (a body ends with or before its allocation on the unchanged tree)
